@@ -120,6 +120,24 @@ def check_fresh(ctx, more=False):
             return
 
 
+def check_from(ctx):
+    """Emit on statistics whose counter already stands near a power of two (a process that has run for long)"""
+    starts = [0, 7, 2 ** 31 - 2, 2 ** 31 - 1, 2 ** 32 - 3, 2 ** 32 - 2, 2 ** 32 - 1, 2 ** 32, 2 ** 40 + 2 ** 32 - 1, 2 ** 53 - 1, 2 ** 63 - 2, 2 ** 63 - 1,
+              2 ** 64 - 2 ** 32 - 1, 2 ** 64 - 5]
+    rc, out = ctx.vh("vh-api", ["emit-from", "3"] + [str(x) for x in starts], timeout=300)
+    try:
+        o = json.loads(out.strip().split("\n")[-1])
+    except Exception:
+        ctx.broken.append("emit-from failed: " + out[-300:])
+        return
+    for r in o["rows"]:
+        ctx.count_case(("emit-from", r["start"]), True, "emit-from")
+    if o["bad"]:
+        ctx.violation({"kind": "emit-from", "observed": [r for r in o["rows"] if r["end"] != r["want"] or not r["indices_ok"]],
+                       "explanation": "three Emit calls on statistics whose matched-pairs counter stands at `start`: the counter must stand at start + 3 afterwards",
+                       "how": "vh-api emit-from 3 " + " ".join(str(x) for x in starts)})
+
+
 def check_closed(ctx):
     """a stream that reports itself closed while its halves still emit, a small output channel, a late consumer"""
     trials = 300 if ctx.tier == "quick" else 6000
@@ -173,6 +191,7 @@ def run(ctx):
     check_multi(ctx)
     check_fresh(ctx, more="Api/EmitTie.v" in failed)
     check_closed(ctx)
+    check_from(ctx)
     if "Api/EmitTie.v" in failed and not ctx.violations:
         # the source's Emit is no longer the atom sequence the theorem is about: show the model's
         # witness when the lock is simply gone (with statements the translator does not know, the
